@@ -9,6 +9,12 @@ CHECKS = {
  "C15": ("fault_enumeration", "exhaustive single-site (and field-pair) corruption enumeration over the bytes the reader consumes, run in RLIMIT_AS worker processes",
          "Every byte the clean and the backup-fallback readers consume x byte/word patterns, raw and with CRCs recomputed independently, all pairs of size-determining header fields x boundary values, all truncation points; oracles: no panic, no process death under a 2 GiB address-space limit, allocation bound, read budget, and returned tables must equal what an independent parser decodes from a CRC-valid copy.",
          "worker processes attribute a death to the in-flight case and require it to reproduce twice; gptck + stdlib crc32 as independent decoder", "DESIGN.md §2.6, §3 C15"),
+ "C01": ("model_checking", "explicit-state BFS over operation histories on the real FAT code, state dedup on (volume bytes, in-memory FAT, reference tree), reference-model + differential-acceptance oracles",
+         "All operation sequences up to the completed depth (3 quick / 4 thorough; fill-empty-refill and root-exhaustion scenarios deeper) over colliding alphabets, from the empty volume and from prepared non-initial states (multi-cluster directory, all low clusters unusable, root nearly full), on FAT12/16/32 at several sizes and start offsets; after every transition the live view, the re-opened view and the same-handle read-back must equal a plain in-memory tree, refused calls must leave everything else unchanged, and the same logical state must accept the same space-consuming call whatever history led to it.",
+         "reference tree (plain map) is the specification; contents written by a letter are a function of the letter; exhaustive within the stated alphabets/depth only", "DESIGN.md §2.3, §3 C01"),
+ "C08": ("model_checking", "same explicit-state BFS as C01, oracle = independent FAT structural checker on the raw bytes after every transition (accepted or refused), plus Create sweep over size-table boundaries",
+         "After Create and after every explored transition an independent reader (written from the FAT specification, shares no code) checks boot sector geometry vs the range given, FAT32 backup boot sector and FSInfo, equality of the FAT copies, every chain in range / terminated / long enough, no cross-links, no lost clusters.",
+         "fatck defines structural soundness; '.'/'..' target clusters are noted, not judged (not in the statement)", "DESIGN.md §3 C08"),
  "C02": ("exploration", "bounded-exhaustive enumeration of table inputs executed on the real Write/Read + independent on-disk parser",
          "Every table of a spelled-out finite cross product (entries, indices, spellings, geometries, names, attributes, types, disk sizes, sector sizes, PMBR, prior content) is written by the real code and compared via gpt.Read/mbr.Read, partition.Read, Disk.GetPartition and an independent UEFI-spec parser; exhaustive over that domain, says nothing outside it.",
          "memdev in-memory device; gptck (independent parser written from the UEFI spec) defines on-disk validity", "DESIGN.md §3 C02"),
